@@ -179,7 +179,9 @@ def phase2():
         m = index[mid]
         if mid in done:
             rows.append(done[mid]); continue
-        sh(f'git -C {REPO} apply --whitespace=nowarn {OUT}/{mid}.diff')
+        if sh(f'git -C {REPO} apply --whitespace=nowarn {OUT}/{mid}.diff')[0] != 0:
+            print(mid, 'patch no longer applies (the line was changed by a later fix): skipped', flush=True)
+            continue
         hit = None; sigs = []
         try:
             for p in props_for(m['file']):
